@@ -451,40 +451,56 @@ where
 /// derived operators, four owned/borrowed forms
 pub fn dmul<L, R, O>(a: &[&str]) -> String
 where
-    L: Quantity<UnitType: 'static> + Mul<R, Output = O>,
-    R: Quantity<UnitType: 'static>,
+    L: Quantity<UnitType: 'static> + Mul<R, Output = O> + 'static,
+    R: Quantity<UnitType: 'static> + 'static,
     O: Quantity<UnitType: 'static>,
     for<'x> &'x L: Mul<R, Output = O> + Mul<&'x R, Output = O>,
     for<'x> L: Mul<&'x R, Output = O>,
 {
     let l = L::new(dec_amt(a[1]), unit_at::<L::UnitType>(a[0].parse().unwrap()));
     let r = R::new(dec_amt(a[3]), unit_at::<R::UnitType>(a[2].parse().unwrap()));
-    format!(
+    let four = format!(
         "{}|{}|{}|{}",
         guard(|| qstr(l * r)),
         guard(|| qstr(&l * r)),
         guard(|| qstr(l * &r)),
         guard(|| qstr(&l * &r))
-    )
+    );
+    // both borrowed operands ONE object (`&x * &x`): only where both operand types are the same type and the
+    // line names the same unit and amount twice
+    if std::any::TypeId::of::<L>() == std::any::TypeId::of::<R>() && a[0] == a[2] && a[1] == a[3] {
+        // SAFETY: `L` and `R` are the same type (checked above), so `&l` is a valid `&R`
+        let same: &R = unsafe { &*(&l as *const L as *const R) };
+        format!("{}|{}", four, guard(|| qstr(&l * same)))
+    } else {
+        four
+    }
 }
 
 pub fn ddiv<L, R, O>(a: &[&str]) -> String
 where
-    L: Quantity<UnitType: 'static> + Div<R, Output = O>,
-    R: Quantity<UnitType: 'static>,
+    L: Quantity<UnitType: 'static> + Div<R, Output = O> + 'static,
+    R: Quantity<UnitType: 'static> + 'static,
     O: Quantity<UnitType: 'static>,
     for<'x> &'x L: Div<R, Output = O> + Div<&'x R, Output = O>,
     for<'x> L: Div<&'x R, Output = O>,
 {
     let l = L::new(dec_amt(a[1]), unit_at::<L::UnitType>(a[0].parse().unwrap()));
     let r = R::new(dec_amt(a[3]), unit_at::<R::UnitType>(a[2].parse().unwrap()));
-    format!(
+    let four = format!(
         "{}|{}|{}|{}",
         guard(|| qstr(l / r)),
         guard(|| qstr(&l / r)),
         guard(|| qstr(l / &r)),
         guard(|| qstr(&l / &r))
-    )
+    );
+    if std::any::TypeId::of::<L>() == std::any::TypeId::of::<R>() && a[0] == a[2] && a[1] == a[3] {
+        // SAFETY: `L` and `R` are the same type (checked above), so `&l` is a valid `&R`
+        let same: &R = unsafe { &*(&l as *const L as *const R) };
+        format!("{}|{}", four, guard(|| qstr(&l / same)))
+    } else {
+        four
+    }
 }
 
 /// two-step chain `(l * r) / r`: prints the intermediate product and the final quotient
